@@ -24,6 +24,13 @@ def object_case(rng, hostile=False, degenerate=False, allow_multiclass=True, n=N
     which = gen.pick(rng, common.applicable_kinds(case), p=None)
     if case.kind == "multiclass" and which != "carver" and rng.random() < 0.5:
         which = "carver"
+    if case.kind == "multiclass" and which != "carver":
+        # plain discretizers order modalities by mean(y): they are documented for numeric targets only
+        codes = {v: k for k, v in enumerate(sorted(set(case.y.tolist()), key=str))}
+        case.y = case.y.map(codes).astype(int)
+        if case.y_dev is not None:
+            case.y_dev = case.y_dev.map(codes).astype(int)
+        case.meta["target_recoded_for_discretizer"] = True
     return case, which
 
 
